@@ -378,6 +378,7 @@ func checkC16(c *Ctx) {
 		"K3 NewRelayReplFromRelayForw: the four per-level collections are appended in the same loop iteration; the rebuild loop indexes all four with one index from the last element down to 0; EncapsulateRelay(m, RELAY-REPL, link[i], peer[i]) argument order; interface-id then remote-id re-added when present; guards (non-nil relay, type RELAY-FORW, non-nil message)",
 		"K4 NewAdvertiseFromSolicit / NewRequestFromAdvertise / NewReplyFromMessage: type guards, required-option guards, transaction id copied for ADVERTISE/REPLY and fresh for REQUEST, echoed options are the input's option objects; the set of message types NewReplyFromMessage accepts",
 		"K10 the relay/reply helpers of dhcpv6 (New…From…, Decapsulate…, EncapsulateRelay, ExtractMAC, Get…, Is…) write no memory reachable from their arguments (E3 mutation summaries)",
+		"K11 the messages the three DHCPv6 decoders return share no memory with the datagram (E3 retention, shared C08-K1)",
 		"K5 'after a trip over the wire': the schema rows of optRelayMsg, optInterfaceID, OptRemoteID and the relay header (C02-K2, re-evaluated)")
 	r.NotDecided = append(r.NotDecided, "equality of nested values after a wire round trip beyond slot/field agreement")
 	e6CheckProp(c, "C16-K1", "C16", 8)
@@ -414,6 +415,24 @@ func checkC16(c *Ctx) {
 		r.Check(bad == "", "C16-K10", "dhcpv6."+f.Name()+": does not write the messages it is given", c.P.pos(f.Pos()), "E3: mutates ∩ inputs = ∅", bad)
 	}
 	r.Count("C16-K10-helpers", n)
+	// K11: the relay messages the helpers work on are what the decoder returned: they share no memory with the datagram
+	// (shared C08-K1), so "the same link and peer address at every level" cannot change under a handler that still holds one
+	for _, nm := range []string{"FromBytes", "MessageFromBytes", "RelayMessageFromBytes"} {
+		if f := c.P.Func(modPath + "/dhcpv6." + nm); f != nil {
+			bad := false
+			for _, x := range getE3(c).retentionFindings(f, 0) {
+				bad = true
+				if strings.HasPrefix(x.short, "UNDECIDED") {
+					r.Undecided("C16-K11", "dhcpv6."+nm+": "+x.short, x.pos, x.detail)
+				} else {
+					r.Violation("C16-K11", "dhcpv6."+nm+": the decoded message aliases its input ("+x.short+")", x.pos, x.detail)
+				}
+			}
+			if !bad {
+				r.OK("C16-K11", "dhcpv6."+nm+": the decoded message shares no memory with its input", c.P.pos(f.Pos()), "E3: flows(Pd/Pr(input)) = ∅", "")
+			}
+		}
+	}
 	r.Expect("C16-K10-helpers", 8)
 	e2CheckLayouts(c, "C16-K5", func(name string, f *ssa.Function) bool {
 		return strings.Contains(name, "optRelayMsg)") || strings.Contains(name, "optInterfaceID)") || strings.Contains(name, "OptRemoteID)") || strings.Contains(name, "RelayMessage).ToBytes") || name == "dhcpv6.RelayMessageFromBytes"
